@@ -63,8 +63,15 @@ impl<P: FwProp> Engine for FwEngine<P> {
         if deep {
             stats.inc("deep_cases");
         }
-        let case = self.0.generate(&mut g, tier, stats);
+        let mut case = self.0.generate(&mut g, tier, stats);
         DEEP.with(|d| d.set(false));
+        // clock seam: three cases in ten drive the framework through the crate's
+        // own `Instant` implementation for std::time::Instant instead of the
+        // harness's virtual clock type (same virtual times, same oracles)
+        if g.chance(0.3) {
+            case.extra["std_clock"] = serde_json::json!(true);
+            stats.inc("probe.framework_on_std_time_instant");
+        }
         if k < 3 {
             stats.samples.push(case.sample_json());
         }
